@@ -48,7 +48,7 @@ def _build(P, S, d):
     for i, k in enumerate(KEYS):
         st = S.pick("k%d" % i, 0, P.get("max_val", 2))            # 0 absent, 1 value one, 2 value two
         if st:
-            model[k] = bytes([0x10 * st + i])
+            model[k] = bytes([0x10 + i]) if st == 1 else b""      # value two is the EMPTY byte string
     life = S.choice("life", P["lives"])
     if life == "from_dict":
         src = dict(model)
